@@ -356,17 +356,23 @@ func runC13(c *Ctx, w *World, r *Report) {
 				if !ok || containerRole(cont) != "bm" {
 					continue
 				}
-				tab, tidx, ok := asElemLoad(side[1])
+				ms, ok := fa.MaskOf(side[1])
 				if !ok {
 					continue
 				}
-				g, isG := tab.(*ssa.Global)
-				if !isG || !maskTables[g.Name()] {
-					continue
-				}
 				found = true
-				if g.Name() != wantTab {
-					bad = fmt.Sprintf("first word masked with %s; %s needs %s", g.Name(), n, wantTab)
+				// NextOne keeps bits >= x&63 ("high" from the offset); PrevOne keeps bits <= x&63 ("low" of offset+1)
+				wantKind, adj := "high", int64(0)
+				if n == "bitmap.PrevOne" {
+					wantKind, adj = "low", 1
+				}
+				if ms.Kind != wantKind {
+					bad = fmt.Sprintf("first word masked with a %s-side mask (%s); %s needs the %s side (%s)", ms.Kind, ms.Via, n, wantKind, wantTab)
+				}
+				tidx := fa.AtomValueOfLin(ms.N.Add(linConst(-adj)))
+				if tidx == nil {
+					bad = "mask offset is not x&63"
+					continue
 				}
 				px, pc, ok1 := asShiftRight(widx)
 				ox, oj, ok2 := asLowMask(tidx)
@@ -422,12 +428,7 @@ func stripMasks(v ssa.Value, container string) ssa.Value {
 			if _, ok := x.(*ssa.Const); ok {
 				return true
 			}
-			if tab, _, ok := asElemLoad(x); ok {
-				if g, ok := tab.(*ssa.Global); ok && maskTables[g.Name()] {
-					return true
-				}
-			}
-			return false
+			return looksLikeMask(x)
 		}
 		switch {
 		case isMask(b.Y):
